@@ -280,6 +280,10 @@ def exercise(res, pr, rng, docroot, reqs, reference, N, quota, label='', env=Non
                     break
                 if not check_tokens(res, pr, r, answers[i], N, 'serial pass in ' + tag): break
             expected.append(exp)
+        # one client that does NOT read its (large) answer for a while: its worker sits in write.  The other workers are free, so every
+        # other request has to be answered meanwhile - an answer that waits for somebody else's client depends on that client
+        if N >= 2 and srv.alive() and (pr.tier != 'quick' or N in (2, WORKERS[-1])):
+            stalled_reader(res, pr, rng, srv, reqs, expected, N, label)
         # concurrent rounds
         rnd = 0
         while quota > 0 and srv.alive():
@@ -375,6 +379,60 @@ def exercise(res, pr, rng, docroot, reqs, reference, N, quota, label='', env=Non
         res.fail('server-terminated', dict(phase='concurrent', workers=N, status=srv.status), (srv.stderr() or '')[-600:], None,
                  f'the server process ({N} workers{label}) terminated during the concurrent rounds: {srv.status}')
     return done
+
+def stalled_reader(res, pr, rng, srv, reqs, expected, N, label):
+    import socket
+    # an answer larger than anything the kernel buffers for a client that does not read (6 MB): the worker blocks in write
+    stall_raw = req('GET', '/stall.bin', [('Host', 'x')])
+    try: alone = srv.request(stall_raw, timeout=20)
+    except Exception: return      # noqa: no such file in this document root
+    if not alone or len(alone) < 5000000: return
+    reqs = reqs + [dict(raw=stall_raw, form=False, kind='stalled-reader-big-file')]
+    expected = expected + [canon(alone, False)]
+    big = len(reqs) - 1
+    small = [i for i in range(len(reqs)) if 0 < len(expected[i]) < 20000 and b' 200 ' in expected[i][:20]]
+    if not small: return
+    hold, limit = 4.0, 3.0
+    a = socket.socket(socket.AF_INET, socket.SOCK_STREAM)
+    got_a = None
+    try:
+        a.setsockopt(socket.SOL_SOCKET, socket.SO_RCVBUF, 4096)
+        a.settimeout(20)
+        a.connect(('127.0.0.1', srv.port))
+        a.sendall(reqs[big]['raw'])
+        try: a.shutdown(socket.SHUT_WR)
+        except OSError: pass
+        t0 = time.time()
+        time.sleep(0.3)
+        for i in [rng.choice(small) for _ in range(3)]:
+            r = reqs[i]
+            res.evaluations += 1; res.count('stalled reader: request served meanwhile')
+            try: g = srv.request(r['raw'], timeout=limit)
+            except Exception as e: g = e      # noqa
+            if time.time() - t0 > hold: break                      # the stalled client is about to read: no longer the situation
+            if isinstance(g, Exception) or not g:
+                res.fail('no-response-while-another-client-stalls', pr.case(r, N, dict(stalled=reqs[big]['raw'][:120].decode('latin1'), error=repr(g))), repr(g), C.hx(expected[i][:2000]),
+                         f'{N} workers{label}: while ONE client does not read its {len(expected[big])}-byte answer (for {hold} s) this request got no answer within {limit} s; alone it is answered at once')
+                break
+            if canon(g, r['form']) != expected[i]:
+                res.fail('cross-talk', pr.case(r, N, dict(shape='stalled reader')), C.hx(canon(g, r['form'])[:6000]), C.hx(expected[i][:6000]),
+                         f'{N} workers{label}: while one client does not read its answer the response differs from the response to the same request served alone')
+                break
+        time.sleep(max(0.0, hold - (time.time() - t0)))
+        chunks = []
+        while True:
+            b = a.recv(1 << 16)
+            if not b: break
+            chunks.append(b)
+        got_a = b''.join(chunks)
+    except Exception as e:      # noqa
+        got_a = e
+    finally:
+        a.close()
+    res.evaluations += 1
+    if isinstance(got_a, Exception) or canon(got_a, reqs[big]['form']) != expected[big]:
+        res.fail('no-response-under-concurrency' if isinstance(got_a, Exception) else 'cross-talk', pr.case(reqs[big], N, dict(shape='stalled reader, the stalled client itself')),
+                 repr(got_a)[:300], C.hx(expected[big][:2000]), f'{N} workers{label}: the client that read its answer late did not receive the answer it gets alone')
 
 def fresh_passes(res, pr, rng, docroot, reqs, reference, N, k, label='', env=None):
     """k more FRESH instances, one serial pass each in a newly drawn order (no concurrent rounds): whatever the first request of a
